@@ -215,6 +215,9 @@ func genFTy(r *vh.Rand, scope string, env EnumEnv) (FTy, string) {
 			t.Str = sr
 		}
 		t.List = genLPay(r, false, true)
+		if scope == "all" && r.Chance(12) {
+			t.SFormat = ptr(vh.Pick(r, []string{"uri", "date", "email", "uuid"}))
+		}
 		return t, ""
 	case 3:
 		t := FTy{Kind: TBytes}
@@ -310,7 +313,14 @@ func genFTy(r *vh.Rand, scope string, env EnumEnv) (FTy, string) {
 		return FTy{Kind: TObject, Flatten: r.Chance(40)}, ""
 	case 12:
 		if r.Bool() {
-			return FTy{Kind: TAny, List: genLPay(r, false, false)}, ""
+			t := FTy{Kind: TAny, List: genLPay(r, false, false)}
+			if r.Chance(40) {
+				t.AnyOD = r.Bool()
+				if r.Bool() {
+					t.AnyT = []string{"foo.v1.Bar"}
+				}
+			}
+			return t, ""
 		}
 		return FTy{Kind: TOneof, List: genLPay(r, false, false)}, ""
 	}
@@ -366,7 +376,7 @@ func genDesc(r *vh.Rand) string {
 func genProp(r *vh.Rand, name string, scope string, env EnumEnv) genDecl {
 	t, class := genFTy(r, scope, env)
 	p := Prop{Name: name, T: t, Desc: genDesc(r)}
-	if r.Chance(30) && t.Kind != TAny && t.Kind != TOneof {
+	if r.Chance(30) && t.Kind != TOneof {
 		p.PK = PArray
 		if r.Chance(70) {
 			ar := &ArrRules{Min: smallLen(r), Max: smallLen(r), Uniq: optBool(r)}
